@@ -3,7 +3,7 @@
 # (/tmp/wt-<CID>/out/patch<N>.diff + demo<N>.rs), then run our checks against it, then file it
 # under /verif/seeded/<CID>-<N>/.   Development aid.
 set -u
-CID="$1"; N="$2"; WT=/tmp/wt-$CID; OUT=$WT/out
+CID="$1"; N="$2"; WT=${WTPREFIX:-/tmp/wt-}$CID; OUT=$WT/out; FILE_AS=$((N + ${NUM_OFFSET:-0}))
 [ -f "$OUT/patch$N.diff" ] || { echo "no patch $OUT/patch$N.diff"; exit 2; }
 cd "$WT" || exit 2
 git checkout -q -- . ; rm -rf tests; mkdir -p tests; cp "$OUT/demo$N.rs" tests/demo$N.rs
@@ -16,12 +16,23 @@ LIB=$(cargo test --offline --lib 2>&1 | grep -E '^test result' | head -1)
 echo "repo tests with change: $LIB"
 git checkout -q -- . ; rm -rf tests
 case "$BASE" in *"0 failed"*) ;; *) echo "REJECT: demo does not pass on the unchanged tree"; exit 4;; esac
-case "$MUT" in *"0 failed"*) echo "REJECT: demo does not fail with the change"; exit 4;; esac
+case "$MUT" in *"0 failed"*)
+  # maybe the change only shows in a release build
+  cd "$WT"; rm -rf tests; mkdir -p tests; cp "$OUT/demo$N.rs" tests/demo$N.rs
+  BASER=$(cargo test --offline --release --test demo$N 2>&1 | grep -E '^test result' | head -1)
+  git apply "$OUT/patch$N.diff"
+  MUTR=$(cargo test --offline --release --test demo$N 2>&1 | grep -E '^test result' | head -1)
+  git checkout -q -- . ; rm -rf tests
+  echo "release: unchanged: $BASER / with the change: $MUTR"
+  case "$BASER" in *"0 failed"*) ;; *) echo "REJECT: demo does not pass on the unchanged tree (release)"; exit 4;; esac
+  case "$MUTR" in *"0 failed"*) echo "REJECT: demo does not fail with the change (debug or release)"; exit 4;; esac
+  MUT="debug: $MUT; release: $MUTR";;
+esac
 case "$LIB" in *"45 passed; 0 failed"*) ;; *) echo "REJECT: repository tests fail with the change"; exit 4;; esac
 shift 2
 RES=$(/verif/tools/try_mutant.sh "$OUT/patch$N.diff" "$@" 2>&1)
 echo "$RES" | tail -40
-D=/verif/seeded/$CID-$N; mkdir -p "$D"
+D=/verif/seeded/$CID-$FILE_AS; mkdir -p "$D"
 cp "$OUT/patch$N.diff" "$D/patch.diff"; cp "$OUT/demo$N.rs" "$D/demo.rs"
 CAUGHT=$(echo "$RES" | grep '^CAUGHT-BY:' | sed 's/CAUGHT-BY://')
 python3 - "$OUT/meta$N.json" "$D/meta.json" "$CID" "$BASE" "$MUT" "$LIB" "$CAUGHT" <<'PY'
